@@ -29,7 +29,8 @@ RULE = ("normalised monotonic smooth decomposable circuits (generator harness/ge
         "the domain), (b) the returned rows are the root's rows, (c) frequencies of the drawn columns vs the weight rows and "
         "(d) of the returned assignments vs the exact probabilities computed by the Lean evaluator, within 6 standard "
         "deviations, and no sample with probability zero, (e) for plain compilations the returned rows vs the model's "
-        "propagate / follow (Model/Sample.lean) run on the recorded draws; non-trivial = distinct (spec, flags)")
+        "propagate / follow (Model/Sample.lean) run on the recorded draws; the parameters are then re-randomised in place "
+        "and the same compiled circuit is sampled again ((a), (c)-(e) against the current weights); non-trivial = distinct (spec, flags)")
 
 OPTS = dict(leaf_kinds=["cat_probs", "cat_probs", "cat_softmax", "bin_probs", "bin_logits"],
             weight_pz=["softmax"], units=[1, 2, 3], kout=1, nout=1, inner_outputs=False)
@@ -218,6 +219,39 @@ def run_scenario(run: Run, scen: dict, rng: random.Random):
                         run.violation("mixture-frequencies", scen,
                                       f"{name} fold {f} unit {o}: column {c} drawn {int(cnt[c])}/{N} times, weight {float(w[f, o, c]):.6f}")
                         return
+    # (c2) the parameters change (as by a training step or load_state_dict) and the same compiled circuit is
+    #      sampled again: the draws must follow the *current* weights
+    if rec is not None and scen.get("phase2", True):
+        with torch.no_grad():
+            for p_ in tc.parameters():
+                if not (p_.requires_grad and p_.is_floating_point()):
+                    continue
+                for f_ in range(p_.shape[0]):  # fold slices: tensors of different roles may share one folded tensor
+                    q_ = p_[f_]
+                    if bool((q_ >= 0).all()) and torch.allclose(q_.sum(dim=-1), torch.ones(1, dtype=q_.dtype)):
+                        continue  # probabilities given directly: leave them normalised
+                    q_.copy_(torch.randn_like(q_) * 1.5)
+        try:
+            samples, mixtures, rec = instrumented_sample(tc, N, scen["torch_seed"] + 1)
+        except Exception as e:  # noqa: BLE001
+            run.violation("sampling-crash", scen, f"second SamplingQuery after a parameter update raised {type(e).__name__}: {e}")
+            return
+        bad, nchecks, draws = local_checks(rec, N, D, doms, vs)
+        run.evaluations += nchecks
+        if bad:
+            run.violation(bad[0], scen, f"{bad[1]} (after a parameter update; fold={fold}, optimize={optimize})")
+            return
+        for name, w, mix in draws:
+            F, Ko, C = w.shape
+            for f in range(F):
+                for o in range(Ko):
+                    cnt = np.bincount(mix[f, o], minlength=C)
+                    for c in range(C):
+                        run.tolerance += 1
+                        if freq_outlier(int(cnt[c]), N, float(w[f, o, c])):
+                            run.violation("mixture-frequencies-after-update", scen,
+                                          f"{name} fold {f} unit {o}: after the parameters changed, column {c} is drawn {int(cnt[c])}/{N} times but its current weight is {float(w[f, o, c]):.6f}")
+                            return
     # (d) joint frequencies vs exact probabilities from the model
     params = ser.tensor_params(sc)
     theta = real.read_theta(comp, params)
